@@ -1,4 +1,5 @@
 import Driver.C04
+import Driver.C15_6800
 import Driver.C03
 import Driver.C17
 import Driver.C20
@@ -28,6 +29,8 @@ partial def loop (h : IO.FS.Stream) (out : IO.FS.Stream) (f : String → String)
   loop h out f
 
 def modes : List (String × (String → String)) := [
+  ("c06fam", C06.handleFam),
+  ("c15_68", C15_6800.handle),
   ("c03", C03.handle),
   ("c17pipe", C17.handlePipe),
   ("c17drehe", C17.handleDrehe),
